@@ -329,7 +329,7 @@ impl ParserListener for Screen {
     ///A list of screen lines as unicode strings.
     fn display(&mut self) -> Vec<String> {
         let default_char = self.default_char();
-        let render = |line: &mut HashMap<u32, CharOpts>| -> String {
+        let render = |line: Option<&HashMap<u32, CharOpts>>| -> String {
             let mut result = String::new();
             let mut is_wide_char = false;
             for x in 0..self.columns {
@@ -337,7 +337,11 @@ impl ParserListener for Screen {
                     is_wide_char = false;
                     continue;
                 }
-                let char = line.entry(x).or_insert(default_char.clone()).data.clone();
+                // Never-written cells render as the default character; rendering
+                // must not change the grid.
+                let char = line
+                    .and_then(|l| l.get(&x))
+                    .map_or_else(|| default_char.data.clone(), |c| c.data.clone());
                 is_wide_char = char
                     .chars()
                     .next()
@@ -350,12 +354,7 @@ impl ParserListener for Screen {
 
         let mut result = Vec::new();
         for y in 0..self.lines {
-            let line_render = render(
-                &mut self
-                    .buffer
-                    .entry(y)
-                    .or_insert(HashMap::<u32, CharOpts>::new()),
-            );
+            let line_render = render(self.buffer.get(&y));
             result.push(line_render);
         }
 
